@@ -12,7 +12,7 @@ from vf.runner import Check, Result, exc_sig
 
 LEX = ["''", "'a'", "'it''s'", "'a\\'b'", '"x"', '"a\\"b"', '@v', '@@sv', '@`a b`', "@'a b'", '1', '007', '1.0', '1.50',
        'x', '`x y`', '(', ')', ',', '=', '*', '::', '->', '-- c\n', '/* c */', '\n', 'select', 'from', 'where', "''''", '"\'"', '%',
-       "'a\nb'", "'x  y'", "'a\tb'", '"p  q"', '||', 'AS']
+       "'a\nb'", "'x  y'", "'a\tb'", '"p  q"', '||', 'AS', "'she said \u201cok\u201d'", "'rock \u2019n\u2019 roll'", "'a\u00a0b'"]
 
 EMBED = [
     ('create_model_db', 'CREATE MODEL m FROM db ({q}) PREDICT y', 'query_str'),
